@@ -6,8 +6,19 @@ import json
 import sys
 
 
+from exoverif.common import watch_z3 as _watch_z3, _Z3_UNKNOWN
+
+
 def run_session(sid, case):
     """-> (record, final procedure | None)"""
+    _watch_z3()
+    unk0 = _Z3_UNKNOWN[0]
+    rec, p = _run_session(sid, case)
+    rec["z3_unknown"] = _Z3_UNKNOWN[0] - unk0
+    return rec, p
+
+
+def _run_session(sid, case):
     from exoverif.gen.programs import build
     from exoverif import sched
     from exoverif.common import rejection_types
